@@ -30,6 +30,32 @@ CHECKS = {
         technique="TLA+ spec (Names/NamesMC) exhaustively model-checked + TLC-enumerated names replayed into code + trace validation (TraceNames)",
         design_ref="3.7, 4 C16",
     ),
+    "C15": dict(
+        level="model_checking",
+        text="WriteSession.tla models each write call as check / register / archive-at-the-worker's-cursor steps with one injected "
+             "fault per history (bad name, missing source, lstat/open raising, read raising after k bytes); TLC checks InStep, NoRetry, "
+             "Committed, FaultRaised, AppendOnly exhaustively (<=3 calls, <=2 sessions) and, as negative control, that the same spec "
+             "without the rollback step (the tree before the fix) violates InStep. Every history TLC enumerates is executed on the real "
+             "SevenZipFile with faults injected through pathlib/stream subclasses; the recorded call/ret/close/reopen traces (plus random "
+             "longer multi-session ones) are validated by TLC against TraceWriteSession.",
+        note="Trusted: TLC; fault injection through API objects (root user: no real permission faults); read-back through py7zr itself "
+             "with content identified by SHA-256. A source failing at byte 0 is classified with mid-read faults (weak requirement).",
+        technique="TLA+ spec (WriteSession) model-checked + TLC-enumerated histories replayed into code + trace validation (TraceWriteSession)",
+        design_ref="3.3, 4 C15",
+    ),
+    "C08": dict(
+        level="model_checking",
+        text="WriteSession.tla with create + up to 2 append sessions: AppendOnly (action property) and Committed are model-checked; every "
+             "fault-free history TLC enumerates is executed with a different filter chain / header mode per session by path and by stream; "
+             "archives written by the independent reference writer (all layout options) and the third-party fixtures serve as foreign bases "
+             "for random append sessions. After every session the archive is read by py7zr and by the strict reference reader and TLC "
+             "(TraceWriteSession) checks members = base + successful calls in order and that name, bytes, kind, mtime and attributes of "
+             "earlier members never change in either reader's view.",
+        note="Trusted: TLC, harness/refcodec (independent reader/writer, self-tested against the third-party fixtures). Foreign bases py7zr "
+             "cannot read correctly before any append are skipped here (reader conformance is C06). Bytes after the header are ignored.",
+        technique="TLA+ spec (WriteSession) model-checked + TLC-enumerated histories replayed into code + trace validation with an independent reader",
+        design_ref="3.3, 4 C08",
+    ),
 }
 
 NOT_YET = {}  # id -> reason; filled below for every property without a check
